@@ -376,6 +376,7 @@ def run_reconnect_case(seed, T):
     problems = []
     if R.raised:
         problems.append('exception escaped the connection handler: %r' % (R.raised,))
+    problems += R.writer_problems()
     if R.no_write_interest:
         problems.append('unsent bytes wait in the write buffer of a CONNECTED connection while the poller is not asked for '
                         'writability (first at event #%d): they go out only if the application happens to send again'
@@ -492,6 +493,7 @@ def run_wfail_case(seed, T):
     problems = []
     if R.raised:
         problems.append('exception escaped the connection handler: %r' % (R.raised,))
+    problems += R.writer_problems()
     if R.no_write_interest:
         problems.append('unsent bytes wait in the write buffer of a CONNECTED connection while the poller is not asked for '
                         'writability (first at event #%d): they go out only if the application happens to send again'
